@@ -149,28 +149,46 @@ def run(E: Engine, rep: Report, tier: str) -> dict:
     rep.floor("SIB", 24)
 
     # ------------------------------------------------------ base operations
+    from .. import bounds, sym
+    from .symutil import S, dnf, has, is_, sh, unobj
+
     smp = [f for f in base.methods["samples"] if f.kind == "property"][0]
-    rep.check(any(norm(r.value) == "self._samples.copy()" for r in returns(smp)), "BASE", "Waveform.samples|returns-copy", "samples returns a copy of the cached array", "Waveform.samples no longer returns a copy: callers could edit the cached samples", E.where(smp))
+    rs = S(E, smp).ret
+    ok = rs is not None and (is_(rs, "Q_x.copy()") is not None or is_(rs, "np.array(Q_x)") is not None or is_(rs, "np.copy(Q_x)") is not None or is_(rs, "copy.copy(Q_x)") is not None or is_(rs, "copy.deepcopy(Q_x)") is not None)
+    rep.check(ok, "BASE", "Waveform.samples|returns-copy", "samples returns a copy of the cached array", f"Waveform.samples returns `{sh(rs, 80)}`, no longer a copy: callers could edit the cached samples", E.where(smp))
     neg = base.methods["__neg__"][0]
-    rep.check(any(isinstance(r.value, ast.Call) and "__mul__" in norm(r.value.func) and norm(r.value.args[0]) in ("-1.0", "-1") for r in returns(neg)), "BASE", "Waveform.__neg__|mul-minus-one", "negation = multiplication by -1", "Waveform.__neg__ is no longer self * -1", E.where(neg))
+    rn = S(E, neg).ret
+    ok = rn is not None and (is_(rn, "self.__mul__(-1)") is not None or is_(rn, "self * -1") is not None or is_(rn, "-1 * self") is not None)
+    rep.check(ok, "BASE", "Waveform.__neg__|mul-minus-one", "negation = multiplication by -1", f"Waveform.__neg__ is `{sh(rn, 80)}`, no longer self * -1", E.where(neg))
     td = base.methods["__truediv__"][0]
-    conj = rejection_conjunctions(E, td)
-    zero = any(l.atom is not None and l.atom.rel == "Eq" and "const:0" in l.atom.rhs.roots and "other" in strip_prefixes(l.atom.lhs.roots) for _ln, c_ in conj for l in c_)
-    inv = any(isinstance(r.value, ast.Call) and "__mul__" in norm(r.value.func) and isinstance(r.value.args[0], ast.BinOp) and isinstance(r.value.args[0].op, ast.Div) and norm(r.value.args[0].left) == "1" for r in returns(td))
-    rep.check(zero and inv, "BASE", "Waveform.__truediv__|mul-by-inverse-with-zero-rejection", "division = multiplication by 1/other; division by zero rejected", "Waveform.__truediv__ changed (zero rejection or 1/other)", E.where(td))
+    Std = S(E, td)
+    zero = any(any(is_(x, "np.any(Q_o == 0)") is not None and sym.contains(x, ("name", "other")) for x in conj_) for l in Std.logged("raise") for conj_ in dnf(l.cond))
+    inv = Std.ret is not None and any(is_(c_, "self.__mul__(1 / Q_o)") is not None or is_(c_, "self * (1 / Q_o)") is not None for c_ in [Std.ret] + [t for t in sym.subterms(Std.ret) if t[0] in ("call", "mul")])
+    rep.check(zero and inv, "BASE", "Waveform.__truediv__|mul-by-inverse-with-zero-rejection", "division = multiplication by 1/other; division by zero rejected", f"Waveform.__truediv__ changed (zero rejection {zero}, multiplication by 1/other {inv})", E.where(td))
     eq = base.methods["__eq__"][0]
-    src = norm(eq.node)
-    rep.check("self.duration != other.duration" in src and "np.isclose" in src and "np.all" in src, "BASE", "Waveform.__eq__|duration-and-closeness", "equality = same duration and sample-wise closeness", "Waveform.__eq__ no longer compares duration and sample-wise closeness", E.where(eq))
+    req = S(E, eq).ret_full if hasattr(S(E, eq), "ret_full") else S(E, eq).ret
+    # True only on a path where the durations are equal and np.all(np.isclose(samples, other samples)) holds
+    from .symutil import branches as _branches
+
+    eq_ok = req is not None
+    n_true = 0
+    for conds_, leaf_ in _branches(req) if req is not None else []:
+        if leaf_ in (("const", False), ("name", "NotImplemented")):
+            continue
+        n_true += 1
+        dur_ok = any(is_(x, "other.duration == self.duration") is not None for c_ in conds_ for x in sym.conj_of(c_))
+        close_ok = any(is_(t, "np.all(np.isclose(Q_a, Q_b))") is not None and sym.contains(t, ("name", "other")) and sym.contains(t, ("name", "self")) for t in sym.subterms(leaf_)) or any(is_(x, "np.all(np.isclose(Q_a, Q_b))") is not None for c_ in conds_ for x in sym.conj_of(c_))
+        eq_ok = eq_ok and dur_ok and close_ok
+    rep.check(eq_ok and n_true >= 1, "BASE", "Waveform.__eq__|duration-and-closeness", "equality = same duration and sample-wise closeness", f"Waveform.__eq__ no longer compares duration and sample-wise closeness on every accepting path: {sh(req, 200)}", E.where(eq))
     ci = base.methods["_check_index"][0]
-    conj = rejection_conjunctions(E, ci)
-    lo = any(l.atom is not None and l.atom.rel == "Lt" and "i" in l.atom.lhs.roots and "Neg" in l.atom.rhs.tags and "self.duration" in l.atom.rhs.roots for _ln, c_ in conj for l in c_)
-    hi = any(l.atom is not None and l.atom.rel == "GtE" and "i" in l.atom.lhs.roots and "self.duration" in l.atom.rhs.roots and "Neg" not in l.atom.rhs.tags for _ln, c_ in conj for l in c_)
+    lo = hi = False
+    for l in S(E, ci).logged("raise"):
+        for conj_ in dnf(l.cond):
+            lo = lo or any(is_(x, "i < -self.duration") is not None for x in conj_)
+            hi = hi or any(is_(x, "i >= self.duration") is not None for x in conj_)
     rep.check(lo and hi, "BASE", "Waveform._check_index|range", "index rejected iff i < -duration or i >= duration", "Waveform._check_index bounds changed", E.where(ci))
     # slice bounds: a negative bound wraps around in numpy, so both returned bounds must be provably >= 0
     # (symbolic-bounds prover over the normal form; conditionals, min/max/clip and comparison facts only)
-    from .. import bounds, sym
-    from .symutil import S, sh
-
     cs = base.methods["_check_slice"][0]
     r = S(E, cs).ret
     while r[0] == "obj":
